@@ -601,7 +601,7 @@ func main() {
 	r := rng.New(*seed)
 	nprog, ncfg, nidlgen := 24, 3, 6
 	if *tier == "thorough" {
-		nprog, ncfg, nidlgen = 400, 6, 60
+		nprog, ncfg, nidlgen = 250, 6, 40
 	}
 	if *only != "" {
 		nprog, nidlgen = 0, 0
